@@ -51,22 +51,22 @@ EXTENDS Naturals, FiniteSets, Sequences, TLC
 CONSTANTS
     TTL,                 \* life time of every session entry, in ticks
     MaxNow,              \* clock bound
-    MaxOffers,           \* offers the honest issuer makes
-    Subjects,            \* DIDs the issuer offers to (subset of {"W","A"})
+    SubjSeq,             \* the DIDs ("W" / "A") the honest issuer makes its offers to, in this order
     MaxTok, MaxNonce,    \* bound on access tokens / c_nonces minted per flow
     MaxAtt,              \* attacker steps (token requests, credential requests, forged offers)
     MaxWRuns,            \* offers the honest wallet handles
     Shapes,              \* shapes of attacker-made credential requests
     NonceSingleUse, BurnOnRelease, AtomicRedeem, HolderChecksSubject, NonceTypeChecked,   \* deviations
-    LeakCode,            \* the attacker may learn pre-authorized codes offered to "W" (offer = GET query string)
-    LeakSecrets,         \* ... access tokens and c_nonces of flows of "W"
-    LeakRequest,         \* ... complete credential requests of "W" (token + proof) AFTER the issuer served them
+    LeakCode,            \* the attacker learns the pre-authorized codes offered to "W" (an offer is a GET query string)
+    LeakSecrets,         \* ... the access tokens and c_nonces sent to "W" in responses
+    LeakRequest,         \* ... the complete credential requests of "W" (token + proof) AFTER the issuer served them
     RogueIssuer,         \* the attacker operates issuer "X" and can make "W" talk to it
     DropAllowed,         \* responses to "W" may be lost
     Replay,              \* an offer may be delivered to "W" more than once
     UseCover,            \* behaviour generation: remember (action class, outcome) pairs in the state
     Hist
 
+MaxOffers == Len(SubjSeq)
 FlowSeq == <<"f1", "f2", "f3">>
 FlowSet == {FlowSeq[i] : i \in 1..MaxOffers}
 AllShapes == {"own", "audX", "badtyp", "forgeW", "wrongtype", "noproof", "nonstr"}
@@ -135,15 +135,16 @@ NextNon(f)   == [f |-> f, k |-> nnon[f] + 1]
 (* issuer.OfferCredential: createOffer stores the flow and the             *)
 (* pre-authorized code, then sends the offer to the wallet of the subject. *)
 (***************************************************************************)
-Offer(s) ==
-    /\ nflows < MaxOffers /\ s \in Subjects
+Offer ==
+    /\ nflows < MaxOffers
     /\ LET f == FlowSeq[nflows + 1]
+           s == SubjSeq[nflows + 1]
            o == [to |-> s, iss |-> "I", code |-> f, typ |-> "T1"] IN
        /\ nflows' = nflows + 1
        /\ flows' = [flows EXCEPT ![f] = [subj |-> s, exp |-> now + TTL, st |-> "live"]]
        /\ codes' = codes \cup {f}
        /\ offers' = offers \cup {o}
-       /\ kcodes' = IF s = "A" THEN kcodes \cup {f} ELSE kcodes      \* the attacker's own wallet received it
+       /\ kcodes' = IF s = "A" \/ LeakCode THEN kcodes \cup {f} ELSE kcodes      \* the attacker's own wallet received it / leak
        /\ Log([a |-> "Offer", f |-> f, subj |-> s])
     /\ UNCHANGED <<now, toks, nons, ntok, nnon, tr, w, wruns, handled, stored, ktoks, knons, kproofs, acreds, asteps,
                    minted, issuedN, releases, panics, cover>>
@@ -207,7 +208,8 @@ TokEnd(p, lost) ==
        /\ tr' = [tr EXCEPT ![p] = IdleReq]
        /\ IF p = "W"
             THEN /\ w' = IF ok /\ ~lost THEN [w EXCEPT !.pc = "cred", !.tok = r.tok, !.non = r.non] ELSE IdleW
-                 /\ UNCHANGED <<ktoks, knons>>
+                 /\ ktoks' = IF ok /\ LeakSecrets THEN ktoks \cup {r.tok} ELSE ktoks
+                 /\ knons' = IF ok /\ LeakSecrets THEN knons \cup {r.non} ELSE knons
             ELSE /\ ktoks' = IF ok THEN ktoks \cup {r.tok} ELSE ktoks
                  /\ knons' = IF ok THEN knons \cup {r.non} ELSE knons
                  /\ UNCHANGED w
@@ -269,22 +271,23 @@ HolderAccepts(c, otyp) == /\ c # NoCred /\ c.typ = otyp /\ c.valid
                           /\ HolderChecksSubject => c.subj = "W"
 
 \* the honest wallet requests the credential from the honest issuer; obs: the attacker learns the served request
-WCred(lost, obs) ==
+WCred(lost) ==
     /\ w.pc = "cred" /\ w.o.iss = "I"
     /\ lost => DropAllowed
-    /\ obs => LeakRequest
-    /\ LET p == Proof("W", TRUE, "I", TRUE, w.non)
+    /\ LET obs == LeakRequest
+           p == Proof("W", TRUE, "I", TRUE, w.non)
            out == CredOutcome(w.tok, p, w.o.typ)
            c == IF out = "released" /\ ~lost THEN Released(w.tok) ELSE NoCred IN
        /\ IssuerCred(w.tok, p, w.o.typ, "W", out)
        /\ stored' = IF HolderAccepts(c, w.o.typ) THEN stored \cup {c} ELSE stored
        /\ ktoks' = IF obs THEN ktoks \cup {w.tok} ELSE ktoks
        /\ kproofs' = IF obs THEN kproofs \cup {p} ELSE kproofs
+       /\ knons' = IF out = "invalid_proof_n" /\ LeakSecrets THEN knons \cup {NextNon(w.tok.f)} ELSE knons
        /\ Cover(<<"wcred", out, B(lost), B(obs), w.o.typ>>)
        /\ Log([a |-> "WCred", lost |-> lost, obs |-> obs, tok |-> w.tok, proof |-> p, rtyp |-> w.o.typ, out |-> out,
                newnon |-> NewNon(w.tok, out), stores |-> HolderAccepts(c, w.o.typ)])
     /\ w' = IdleW
-    /\ UNCHANGED <<now, nflows, codes, ntok, tr, offers, wruns, handled, kcodes, knons, acreds, asteps, minted>>
+    /\ UNCHANGED <<now, nflows, codes, ntok, tr, offers, wruns, handled, kcodes, acreds, asteps, minted>>
 
 (***************************************************************************)
 (* The attacker calls the credential endpoint: with a proof he makes       *)
@@ -362,32 +365,6 @@ WCredX(c) ==
                    kcodes, ktoks, knons, acreds, asteps, minted, issuedN, releases, panics>>
 
 (***************************************************************************)
-(* Leaks (only in configurations that switch them on).                     *)
-(***************************************************************************)
-LeakC(f) ==
-    /\ LeakCode /\ f \in FlowSet /\ flows[f].st # "none" /\ Subj(f) = "W" /\ f \notin kcodes
-    /\ kcodes' = kcodes \cup {f}
-    /\ Log([a |-> "LeakC", f |-> f])
-    /\ UNCHANGED <<now, nflows, flows, codes, toks, nons, ntok, nnon, tr, offers, w, wruns, handled, stored,
-                   ktoks, knons, kproofs, acreds, asteps, minted, issuedN, releases, panics, cover>>
-
-LeakT(t) ==
-    /\ LeakSecrets /\ t \in {e.id : e \in toks} /\ Subj(t.f) = "W" /\ t \notin ktoks
-    /\ \A p \in {"W", "A"} : tr[p].tok # t          \* it has been sent in a response
-    /\ ktoks' = ktoks \cup {t}
-    /\ Log([a |-> "LeakT", tok |-> t])
-    /\ UNCHANGED <<now, nflows, flows, codes, toks, nons, ntok, nnon, tr, offers, w, wruns, handled, stored,
-                   kcodes, knons, kproofs, acreds, asteps, minted, issuedN, releases, panics, cover>>
-
-LeakN(n) ==
-    /\ LeakSecrets /\ n \in {e.id : e \in nons} /\ Subj(n.f) = "W" /\ n \notin knons
-    /\ \A p \in {"W", "A"} : tr[p].non # n
-    /\ knons' = knons \cup {n}
-    /\ Log([a |-> "LeakN", non |-> n])
-    /\ UNCHANGED <<now, nflows, flows, codes, toks, nons, ntok, nnon, tr, offers, w, wruns, handled, stored,
-                   kcodes, ktoks, kproofs, acreds, asteps, minted, issuedN, releases, panics, cover>>
-
-(***************************************************************************)
 (* Time: expired entries are gone (go-cache drops them on access).         *)
 (***************************************************************************)
 Tick ==
@@ -400,30 +377,27 @@ Tick ==
                    kcodes, ktoks, knons, kproofs, acreds, asteps, minted, issuedN, releases, panics, cover>>
 
 Next ==
-    \/ \E s \in Subjects : Offer(s)
+    \/ Offer
     \/ \E o \in offers : Recv(o)
     \/ \E p \in {"W", "A"}, c \in FlowSet \cup {"junk"} : TokBegin(p, c)
     \/ \E p \in {"W", "A"}, lost \in BOOLEAN : TokEnd(p, lost)
-    \/ \E lost, obs \in BOOLEAN : WCred(lost, obs)
+    \/ \E lost \in BOOLEAN : WCred(lost)
     \/ \E t \in ktoks \cup {JunkId}, sh \in Shapes, n \in knons \cup {JunkId} : ACred(t, sh, n)
     \/ \E t \in ktoks \cup {JunkId}, p \in kproofs : AReplay(t, p)
     \/ \E iss \in {"I", "X"}, c \in FlowSet \cup {"junk"}, typ \in {"T1", "T2"} : Forge(iss, c, typ)
     \/ \E n \in knons \cup {JunkId} : WTokX(n)
     \/ \E c \in RogueCreds \cup {NoCred} : WCredX(c)
-    \/ \E f \in FlowSet : LeakC(f)
-    \/ \E t \in {e.id : e \in toks} : LeakT(t)
-    \/ \E n \in {e.id : e \in nons} : LeakN(n)
     \/ Tick
 
 Spec == Init /\ [][Next]_vars
 
 \* the honest parties take their steps; nothing is lost, nobody interferes, no entry expires (cfg: MaxAtt = 0, MaxNow = 0)
 HonestNext ==
-    \/ \E s \in Subjects : Offer(s)
+    \/ Offer
     \/ \E o \in offers : Recv(o)
     \/ \E c \in FlowSet : TokBegin("W", c)
     \/ TokEnd("W", FALSE)
-    \/ WCred(FALSE, FALSE)
+    \/ WCred(FALSE)
 FairSpec == Init /\ [][Next]_vars /\ WF_vars(HonestNext)
 
 (***************************************************************************)
